@@ -215,18 +215,23 @@ func ruleR16_1(p *Program, r *Report) {
 		fn := tr.Ops[opn]
 		recv := fn.Params[0]
 		lab := newLabeler()
-		for _, c := range allCalls(fn) {
+		for _, rc := range p.regionCalls(fn) {
+			c := rc.call
 			com := c.Common()
 			if !com.IsInvoke() {
 				continue
 			}
 			root, sel, ok := fieldLoad(com.Value)
-			if !ok || root != recv || sel != "."+lcField {
+			if !ok || sel != "."+lcField || !(root == recv || (rc.in != fn && len(rc.in.Params) > 0 && root == ssa.Value(rc.in.Params[0]) && boundTo(root, recv, rc.bind))) {
 				continue
 			}
 			key := shortFn(fn) + "|" + lab.get("invoke."+lcField+"."+com.Method.Name())
 			guarded := false
-			for _, f := range dominatingFacts(c) {
+			at := ssa.Instruction(c)
+			if rc.via != nil {
+				at = rc.via // a call inside a helper is guarded where the operation calls the helper
+			}
+			for _, f := range dominatingFacts(at) {
 				if f.Op == token.EQL && f.Y != nil && ((isStickyLoad(f.X, recv, tr.Sticky) && isNil(f.Y)) || (isStickyLoad(f.Y, recv, tr.Sticky) && isNil(f.X))) {
 					guarded = true
 				}
